@@ -39,7 +39,8 @@ def handle (s : DState) (line0 : String) : DState :=
         if s.twinDiverged then { s with acc := a, whB := h, twinA := none }
         else
           let tags := twinCheck sa sb
-          let a := tags.foldl (fun a t => a.report "SPECFAIL" "C13" s!"{kindB}:{t}[native:{errB}]" txline) a
+          let flow := openFlow { sa.pre with env := sa.env } sa.sender sa.tx
+          let a := tags.foldl (fun a t => a.report "SPECFAIL" "C13" s!"{kindB}{flow}:{t}[native:{errB}]" txline) a
           { s with acc := a, whB := h, twinA := none, twinDiverged := !tags.isEmpty }
       | _, _ => { s with acc := a, whB := h }
     else
